@@ -1307,8 +1307,8 @@ func checkPinType(pin *api.Pin) error {
 			return errors.New("data pins should not reference other pins")
 		}
 	case api.ShardType:
-		if pin.MaxDepth != 1 {
-			return errors.New("must pin shards go depth 1")
+		if pin.MaxDepth != 1 && pin.MaxDepth != 2 {
+			return errors.New("must pin shards go depth 1 (2 for indirect shards)")
 		}
 		// FIXME: indirect shard pins could have max-depth 2
 		// FIXME: repinning a shard type will overwrite replication
